@@ -159,11 +159,16 @@ structure Cfg where
 /-- `TMP<n>` -/
 def tmpSeg (n : Nat) : Seg := [84, 77, 80] ++ (toString n).toList.map Char.toNat
 
-/-- filesystem, mkdtemp counter, `self.path` -/
+/-- filesystem, mkdtemp counter, `self.path`, and the two settings `reopen` may change: `self.temp`, `self.fext` -/
 structure St where
   fs : FS
   tmpN : Nat
   path : Option P
+  temp : Bool
+  fext : List Nat
+
+/-- the configuration in force: construction parameters with the current `temp` / `fext` -/
+def cur (c : Cfg) (s : St) : Cfg := { c with temp := s.temp, fext := s.fext }
 
 /-- the creation part shared by both branches of `remake`:
 `if filed or extensioned: makedirs(dirname) if missing; if filed: ocfn(path)   else: makedirs(path)` -/
@@ -228,41 +233,54 @@ def clearPath (c : Cfg) (fs : FS) : Option P → Except Exn FS
       else rmtree fs p
     else .ok fs
 
-/-- `close(clear)` -/
+/-- `close(clear)`: `_clearPath` consults the `temp` setting in force NOW -/
 def close (c : Cfg) (s : St) (clear : Bool) : St × Except Exn Unit :=
   if clear then
-    match clearPath c s.fs s.path with
+    match clearPath (cur c s) s.fs s.path with
     | .ok fs => ({ s with fs := fs }, .ok ())
     | .error e => (s, .error e)
   else (s, .ok ())
 
-/-- `reopen(clear, reuse, clean)` (the constructor is `reopen` on `path = None`) -/
-def reopen (c : Cfg) (s : St) (clear reuse clean : Bool) : St × Except Exn Unit :=
+/-- the settings block of `reopen`: `if temp is not None: self.temp = temp` … -/
+def takeOver (s : St) (temp : Option Bool) (fext : Option (List Nat)) : St :=
+  { s with temp := temp.getD s.temp, fext := fext.getD s.fext }
+
+/-- the rest of `reopen` once the settings are in force: `remake` unless the existing path is reused -/
+def reopenTail (c : Cfg) (s : St) (reuse clean : Bool) : St × Except Exn Unit :=
+  let keep := match s.path with
+    | some p => fexists s.fs p && reuse
+    | none => false
+  if !keep then
+    match remake (cur c s) clean s.fs s.tmpN with
+    | (fs, n, .ok p) => ({ s with fs := fs, tmpN := n, path := some p }, .ok ())
+    | (fs, n, .error e) => ({ s with fs := fs, tmpN := n }, .error e)
+  else if c.filed then
+    match s.path with
+    | some p => (match ocfn s.fs p with
+      | .ok fs => ({ s with fs := fs }, .ok ())
+      | .error e => (s, .error e))
+    | none => (s, .ok ())
+  else (s, .ok ())
+
+/-- `reopen(temp, fext, clear, reuse, clean)` (the constructor is `reopen` on `path = None`):
+first `close(clear)` under the OLD settings, then the new settings are taken over, then `remake` unless the
+existing path is reused -/
+def reopen (c : Cfg) (s : St) (clear reuse clean : Bool) (temp : Option Bool) (fext : Option (List Nat)) :
+    St × Except Exn Unit :=
   match close c s clear with
   | (s1, .error e) => (s1, .error e)
-  | (s1, .ok _) =>
-    let keep := match s1.path with
-      | some p => fexists s1.fs p && reuse
-      | none => false
-    if !keep then
-      match remake c clean s1.fs s1.tmpN with
-      | (fs, n, .ok p) => (⟨fs, n, some p⟩, .ok ())
-      | (fs, n, .error e) => (⟨fs, n, s1.path⟩, .error e)
-    else if c.filed then
-      match s1.path with
-      | some p => (match ocfn s1.fs p with
-        | .ok fs => ({ s1 with fs := fs }, .ok ())
-        | .error e => (s1, .error e))
-      | none => (s1, .ok ())
-    else (s1, .ok ())
+  | (s1, .ok _) => reopenTail c (takeOver s1 temp fext) reuse clean
 
 inductive Step
-  | reopen (clear reuse clean : Bool)
+  | reopen (clear reuse clean : Bool) (temp : Option Bool) (fext : Option (List Nat))
   | close (clear : Bool)
 
 def step (c : Cfg) (s : St) : Step → St × Except Exn Unit
-  | .reopen a b cl => reopen c s a b cl
+  | .reopen a b cl t f => reopen c s a b cl t f
   | .close a => close c s a
+
+/-- a fresh object before its constructor's `reopen` -/
+def fresh (c : Cfg) (fs : FS) : St := ⟨fs, 0, none, c.temp, c.fext⟩
 
 /-- the state after a whole history of calls (a caller may catch an exception and go on) -/
 def runAll (c : Cfg) (s : St) : List Step → St
